@@ -14,11 +14,14 @@ pub const PROGRAMS: &[&str] = &[
     "p(1,2,3,4,5,6,7,8,9,10,11,12,13,14,15,16,17,18,19,20,21,22,23,24,25,26,27,28,29,30,31,32,33,34,35,36,37,38,39,40).", "{p(X,Y,Z)} :- q(X,Y,Z), not not r(Z), X != Y, Y < Z.",
     ":- .", ":-", "p :- .", "p(.", "p((((((((((((((((((((((((((((((((1)))))))))))))))))))))))))))))))).", "p(----------1).", "p(1 + + 2).", "p(X) :- X = 1..2..3.", "p(V1, V2, V) :- q(V1, V2, V).",
     "p(V18446744073709551615) :- q(V18446744073709551615).", "p(V340282366920938463463374607431768211455) :- q(V340282366920938463463374607431768211455).", "p(X) :- q(X), X = 00000000000000000000001.",
+    // the extreme numerals as operands of every operator
+    "p(- -9223372036854775808).", "p(-(-9223372036854775808)).", "p(--9223372036854775808) :- q.", "p(X) :- q(X), X = - -9223372036854775808.", "p(-9223372036854775808 - 1).", "p(-9223372036854775808 * -1).", "p(-9223372036854775808 / -1).",
+    "p(-9223372036854775808 \\ -1).", "p(9223372036854775807 * 9223372036854775807).", "p(-9223372036854775808..9223372036854775807).", ":- q(X), X > - -9223372036854775808.", "{p(- 9223372036854775807 - 1 - 1)}.",
     "p :- not not not q.", "p :- not p. p :- not not p.", "#true.", "p(_).", "p(X) :- q(_x).", "p(\"string\").", "p(f(x)).", "p(X) :- q(X); r(X).", "p(X) : q(X).", "a :- b, c; d.", "p(1.5).", "p(1e9).", "\u{00e9}(x).", "p(\u{1F600}).",
 ];
 const THEORIES: &[&str] = &[
     "", "#true.", "#false.", "p.", "forall X (p(X)).", "exists X$i (X$i = 9223372036854775807).", "exists X$i (X$i = 9223372036854775808).", "forall X Y Z (p(X, Y, Z) <-> q(Z, Y, X)).", "forall X (X = X).",
-    "p(-9223372036854775808).", "p(- 9223372036854775807 - 1).", "exists N$i (N$i * 9223372036854775807 > 0).", "forall X$i X$g X$s (p(X$i, X$g, X$s)).", "forall X$ (p(X$)).", "forall (p).", "forall X.", "exists X (", "p <- q <- r.",
+    "p(-9223372036854775808).", "p(- 9223372036854775807 - 1).", "p(- -9223372036854775808).", "exists N$i (N$i = -(-9223372036854775808)).", "p(-9223372036854775808 * -1).", "exists N$i (N$i - 9223372036854775807 > -9223372036854775808).", "exists N$i (N$i * 9223372036854775807 > 0).", "forall X$i X$g X$s (p(X$i, X$g, X$s)).", "forall X$ (p(X$)).", "forall (p).", "forall X.", "exists X (", "p <- q <- r.",
     "p <-> q <-> r.", "not not not not p.", "1 < 2 < 3 < 4 < 5 < 6.", "a < 1 < #sup < #inf.", "p(#inf, #sup, a, 1, X, X$i, X$s).", "forall X$s (X$s = a).", "exists X$s X$i (X$s = X$i).", "p(X$i + a).", "p(a + 1).",
     "forall X (p(X) and (q(X) or (r(X) -> (s(X) <- (t(X) <-> not u(X)))))).", "exists X$i Y$s (Z = X$i and Z = Y$s and p(X$i)).", "exists Y$s X$i (Y$s = Z and X$i = Z and p(X$i + 1)).", "exists X$g Y$s N$i (X$g = Y$s and X$g = N$i and p(N$i)).",
     "forall X$s (exists N$i (X$s = N$i) -> p(X$s)).", "exists N$i X$s (N$i = X$s).", "exists X$s (X$s = 1 and p(X$s)).", "exists N$i (N$i = a and p(N$i)).", "forall X X X (p(X)).", "exists X$i X$g (X$i = X$g).", "p(f).", "p(n$i).", "p(n$g, n$s).",
